@@ -27,6 +27,8 @@ CONFIGS = {
     # extreme tag values are ordinary tags for every request but Tversion: a read carrying NOTAG (0xFFFF) flushed
     # by a request with tag 0, itself flushed
     "flush-notag":   [(65535, "op", 0, "read"), (0, "flush", 65535, ""), (3, "flush", 0, "")],
+    # a walk that replaces a bound fid is held in the Close of the replaced File: its reply and the Rflush wait for it
+    "flush-walkover": [(1, "op", 0, "walkover"), (2, "flush", 1, ""), (3, "op", 0, "getattr")],
     "dup-tag":       [(1, "op", 0, "getattr"), (1, "op", 0, "read"), (2, "op", 0, "write")],
     "tag-reuse":     [(1, "op", 0, "getattr"), (2, "op", 0, "read"), (1, "op", 0, "walk")],
     "bad-frame":     [(1, "op", 0, "read"), (2, "bad", 0, ""), (3, "op", 0, "getattr")],
